@@ -2,6 +2,7 @@
 //! usage: harness <stream> <cases.json> <observed.json>
 use serde_json::Value;
 
+mod c01;
 mod c03;
 mod c04;
 mod c07;
@@ -39,6 +40,7 @@ fn main() {
     let input: Value = serde_json::from_str(&std::fs::read_to_string(&args[2]).expect("read cases")).expect("parse cases");
     let cases = input["cases"].as_array().expect("cases array");
     let observed: Vec<Value> = match args[1].as_str() {
+        "c01" => cases.iter().map(c01::run).collect(),
         "c03" => cases.iter().map(c03::run).collect(),
         "c04" => cases.iter().map(c04::run).collect(),
         "c07" => cases.iter().map(c07::run).collect(),
